@@ -299,7 +299,9 @@ impl Monitor for Mon {
         if !w.awaiting().is_empty() && w.reqs.len() <= 2 {
             v.push(Event::Timer);
             for t in explore::time_reps(w, TimeDetail::Coarse).into_iter().rev().take(1) {
-                v.push(Event::AdvanceTo(t));
+                if !w.just_advanced {
+                    v.push(Event::AdvanceTo(t));
+                }
             }
         }
         let g = self.gen % 3;
